@@ -17,24 +17,33 @@ CONSTANT Mut
 INF == 99
 
 (* ------------------------------------------------------------------ krylov_exp_impl ---------- *)
+\* have: the product op(q_j) for the NEXT iteration is already there (w_next); ops: operator applications so far
 ExpNew(maxDim) ==
-  [fn |-> "exp", pc |-> "loop", maxDim |-> maxDim, j |-> 0,
+  [fn |-> "exp", pc |-> "loop", maxDim |-> maxDim, j |-> 0, have |-> FALSE, ops |-> 0,
    conv |-> FALSE, bd |-> FALSE, iters |-> 0, kind |-> "none", outcome |-> "none"]
 
-\* for j in range(max_krylov_dim):  w = op(lanczos_vectors[-1]) ...          (one op call)
+\* for j in range(max_krylov_dim):  w = op(lanczos_vectors[-1]) if w_next is None else w_next ; w_next = None
 ExpCanIterate(s) == s.pc = "loop" /\ s.j < s.maxDim
+ExpFetch(s) == [s EXCEPT !.ops = s.ops + (IF s.have THEN 0 ELSE 1), !.have = FALSE]
 \* if n2 < norm_tolerance: return KrylovExpResult(converged=True, happy_breakdown=True, iteration_count=j+1)
 ExpBreakdown(s) ==
   [s EXCEPT !.pc = "impl_ret", !.conv = (Mut # "exp-breakdown-reports-unconverged"), !.bd = TRUE,
             !.iters = s.j + 1, !.kind = "breakdown"]
-\* if err < exp_tolerance: return KrylovExpResult(converged=True, happy_breakdown=False, iteration_count=j+1)
+\* if err < exp_tolerance (cheap estimate): w_next = op(lanczos_vectors[-1]); estimate recomputed with |w_next|
+ExpConfirm(s) == [s EXCEPT !.ops = s.ops + 1, !.have = TRUE]
+\* if err < exp_tolerance (confirmed): return KrylovExpResult(converged=True, happy_breakdown=False, iteration_count=j+1)
 ExpConverge(s) ==
   [s EXCEPT !.pc = "impl_ret", !.conv = TRUE, !.bd = FALSE, !.iters = s.j + 1, !.kind = "converged"]
 \* next iteration of the for loop
 ExpContinue(s) == [s EXCEPT !.j = s.j + 1]
-\* the order of the two tests inside one iteration
-ExpIterate(s, n2Small, errSmall) ==
-  IF n2Small THEN ExpBreakdown(s) ELSE IF errSmall THEN ExpConverge(s) ELSE ExpContinue(s)
+\* one iteration: the order of the tests.  errSmall = cheap estimate below tolerance, confirmed = still below
+\* (within CONFIRMED_ESTIMATE_SLACK) once the true |op(q_{j+1})| is known
+ExpIterate(s, n2Small, errSmall, confirmed) ==
+  LET s0 == ExpFetch(s) IN
+  IF n2Small THEN ExpBreakdown(s0)
+  ELSE IF errSmall /\ Mut = "exp-no-confirmation" THEN ExpConverge(s0)
+  ELSE IF errSmall THEN (IF confirmed THEN ExpConverge(ExpConfirm(s0)) ELSE ExpContinue(ExpConfirm(s0)))
+  ELSE ExpContinue(s0)
 \* loop exhausted: return KrylovExpResult(converged=False, happy_breakdown=False, iteration_count=max_krylov_dim)
 ExpCanExhaust(s) == s.pc = "loop" /\ s.j = s.maxDim
 ExpExhaust(s) ==
@@ -98,6 +107,7 @@ MinWrap(s) ==
    reference.  The same operators are used in both places.                                      *)
 \* C07
 ExpReqItersBounded(iters, maxDim)   == iters <= maxDim
+ExpReqOpsBounded(ops, maxDim)       == ops <= maxDim + 1          \* at most one application beyond the allowed dimension
 ExpReqConvAccurate(conv, accurate)  == conv => accurate           \* reports convergence => |result - exp(A)v| <= 10 tol |v| (+ rounding)
 ExpReqRaiseIff(outcome, conv)       == (outcome = "raised") <=> ~conv
 ExpReqReturnedConv(outcome, conv)   == (outcome = "returned") => conv
